@@ -208,3 +208,39 @@ def validate(prog, paths, name='s_validate', max_report=5):
 
 def unsplit(flat):
     return [(t[0], t[1], unsplit(t[2])) if t[0] == 'G' else t for t in flat]
+
+
+def write_replay_dir(path, case, meta):
+    """a self-contained client crate reproducing one S counterexample against the real macro"""
+    if os.path.exists(path):
+        shutil.rmtree(path)
+    os.makedirs(os.path.join(path, 'src'))
+    open(os.path.join(path, 'Cargo.toml'), 'w').write(CLIENT_TOML.format(repo=REPO))
+    shutil.copy(os.path.join(REPO, 'Cargo.lock'), os.path.join(path, 'Cargo.lock'))
+    open(os.path.join(path, 'src', 'lib.rs'), 'w').write(
+        '#![allow(unused, non_snake_case, non_camel_case_types)]\n'
+        f'mod case0 {{\n    #[::entrait_macros::{case["macro"]}({case["attr_src"]})]\n    {case["item_src"]}\n}}\n')
+    json.dump(dict(kind='smir', case=case, **meta,
+                   how='RUSTFLAGS="--cfg audunhalland_entrait_verif" ENTRAIT_VERIF_DUMP=dump.jsonl cargo check --offline ; '
+                       'the recorded output equals `predicted`, on which the obligation named in `role` fails'),
+              open(os.path.join(path, 'replay.json'), 'w'), indent=1, default=str)
+
+
+def replay_dir(path):
+    meta = json.load(open(os.path.join(path, 'replay.json')))
+    case = meta['case']
+    recs, log, dt = expand_batch([case], name='s_replay_one')
+    for r in recs:
+        if r.get('panic'):
+            print('real macro: PANIC')
+            if case.get('kind') == 'panic':
+                print('REPRODUCED')
+                return 1
+        if 'output' in r:
+            got = rec_split(r['output'])
+            print('real expansion:', rsview.show(unsplit(got))[:2000])
+            if json.dumps(got) == json.dumps(case.get('pred')):
+                print(f'REPRODUCED: identical to the predicted expansion on which `{meta.get("role")}` fails: {meta.get("detail", "")[:500]}')
+                return 1
+    print('NOT REPRODUCED')
+    return 0
